@@ -289,7 +289,9 @@ def run(ch, idx, tier):
                         continue  # would leave a program without any target (legitimately refused by the model)
                     data.remove_pop(victim)
                     if progset is not None:
-                        progset.remove_pop(victim)
+                        # documented: "Code name or full name of the population to remove"
+                        label_ = progset.pops[victim]["label"] if (victim in progset.pops and ch.flip("remove_pop.by_full_name", 0.5)) else victim
+                        progset.remove_pop(label_)
                     parset = at.ParameterSet(fw, data, parset.name)
                     op = f"remove_pop({victim!r})"
                 elif op == "rename_pop":
